@@ -820,6 +820,13 @@ func (rp *Replayer) Replay(hs *HarnessSpec, ob *Obligation, all []*HarnessSpec, 
 		if !ro.Reproduced {
 			ro.Why = "the Go race detector reported no race in the native run"
 		}
+	case ob.Kind == "cwidth":
+		// the engine saw a caller-owned C buffer reinterpreted with another element width; natively
+		// that shows as some lock-step comparison with the Go-backed array failing, or a crash
+		ro.Reproduced = strings.Contains(so, "VSYM-ASSERT-FAILED") || strings.Contains(so, "VSYM-PANIC") || (rerr != nil && (strings.Contains(so, "panic:") || strings.Contains(so, "fatal error:")))
+		if !ro.Reproduced {
+			ro.Why = "no native discrepancy for the model values"
+		}
 	case ob.Kind == "assert":
 		ro.Reproduced = strings.Contains(so, "VSYM-ASSERT-FAILED "+ob.Label+"\n")
 		if !ro.Reproduced {
